@@ -40,6 +40,7 @@ class Case:
             sid.local_view = LocalNetwork(s.logger); sid.local_view.machine_id = f'node{self.node[i]}'
             s.mapper.nodes.setdefault(f'node{self.node[i]}', []).append(ident)
         self.running = [True] + [rnd.random() < 0.85 for _ in range(n - 1)]
+        self.checked = [False] * n          # instance seen CHECKED (handshake done, not activated yet)
         for i, ident in enumerate(self.ids):
             s.context.instances[ident]._state = SupvisorsInstanceStates.RUNNING if self.running[i] else SupvisorsInstanceStates.STOPPED
         # recording sinks
@@ -149,6 +150,8 @@ class Case:
             r.identifiers = ['*'] if cfg['idents'] is None else [self.ids[i] for i in cfg['idents']]
         for app in s.context.applications.values():
             app.update_sequences(); app.update()
+        # the truth held by the Supervisor of each instance about the disabled flag of each program
+        self.dis = {(i, p): (i in cfg['disabled']) for p, cfg in enumerate(self.pinfo) for i in cfg['known']}
         # tell the model the initial infos, in the real insertion order of info_map (per process: instance order)
         for i in range(n):
             for p, cfg in enumerate(self.pinfo):
@@ -196,6 +199,8 @@ class Case:
                     s.stopper.restart_application(strat, s.context.applications[aname]); self.record(f"restartapp {self.aidx[aname]} {strat.value}")
             elif r < 0.72:
                 s.starter.check(); s.stopper.check(); self.record("check")
+            elif r < 0.77 and self.n > 1:
+                self.cluster_op()
             else:
                 # a process event: prefer processes with a start request in flight
                 inflight = [(c.process.namespec, c.identifier) for j in list(s.starter.current_jobs.values()) + list(s.stopper.current_jobs.values()) for c in j.current_jobs]
@@ -208,20 +213,91 @@ class Case:
                     p = rnd.randrange(len(self.pinfo)); cfg = self.pinfo[p]
                     i = rnd.choice(cfg['known']); ns = f"{cfg['aname']}:{cfg['name']}"
                     st = rnd.choice([0, 10, 20, 30, 40, 100, 200])
-                if not self.running[i]: continue
+                # events of instances that are not seen CHECKED / RUNNING are sent now and then: they must be ignored
+                if not (self.running[i] or self.checked[i]) and rnd.random() < 0.7: continue
                 cfg = self.pinfo[p]
                 # no conflicts in this spike: a running-like event only where nobody else runs the process
                 procx = s.context.get_process(ns)
                 if st in (10, 20, 30) and any(x != self.ids[i] for x in procx.running_identifiers): continue
                 if i not in cfg['known']: continue
                 expected = rnd.random() < 0.7
-                ident = self.ids[i]
-                ev = event(cfg['aname'], cfg['name'], ident, st, expected, T[0] / UNIT)
-                ev['disabled'] = i in cfg['disabled']
-                s.fsm.on_process_state_event(s.context.instances[ident], ev)
-                info = s.context.get_process(ns).info_map[ident]
-                self.record(f"event {i} {p} {st} {int(expected)} {int(info['event_time'] * UNIT)} {int(info['local_mtime'] * UNIT)}")
+                self.process_event(i, p, st, expected)
         return self
+
+    def process_event(self, i, p, st, expected):
+        s = self.s; cfg = self.pinfo[p]; ident = self.ids[i]; ns = f"{cfg['aname']}:{cfg['name']}"
+        ev = event(cfg['aname'], cfg['name'], ident, st, expected, T[0] / UNIT)
+        ev['disabled'] = self.dis[(i, p)]
+        before = dict(s.context.get_process(ns).info_map[ident])
+        s.fsm.on_process_state_event(s.context.instances[ident], ev)
+        info = s.context.get_process(ns).info_map[ident]
+        accepted = self.running[i] or self.checked[i]
+        et, lt = (int(info['event_time'] * UNIT), int(info['local_mtime'] * UNIT)) if accepted else (T[0], T[0])
+        self.record(f"event {i} {p} {st} {int(expected)} {et} {lt} {int(self.dis[(i, p)])}")
+
+    def cluster_op(self):
+        """ the cluster moves under the commander: an instance is lost (with whatever it was asked), comes back through a
+            handshake (CHECKED), is activated (RUNNING); a program is disabled / enabled on the Supervisor of an instance """
+        rnd, s = self.rnd, self.s
+        r = rnd.random()
+        others = list(range(1, self.n))
+        if r < 0.35:
+            cands = [i for i in others if self.running[i] or self.checked[i]]
+            if not cands: return
+            # prefer an instance with a request in flight
+            busy = [self.ids.index(c.identifier) for j in list(s.starter.current_jobs.values()) + list(s.stopper.current_jobs.values())
+                    for c in j.current_jobs if c.identifier != self.ids[0]]
+            i = rnd.choice(busy) if busy and rnd.random() < 0.7 else rnd.choice(cands)
+            if i not in cands: return
+            status = s.context.instances[self.ids[i]]
+            status._state = SupvisorsInstanceStates.FAILED
+            lost, failed = s.context.invalidate_failed()
+            # _MasterSlaveState._common_next
+            s.starter.on_instances_invalidation(lost, failed)
+            s.stopper.on_instances_invalidation(lost, failed)
+            self.running[i] = False; self.checked[i] = False
+            self.lines.append(f"op {T[0]} lose {i}")
+            self.obs.append(self.observe() + f" failed=[{','.join(map(str, sorted(self.pidx[x.namespec] for x in failed)))}]")
+        elif r < 0.6:
+            cands = [i for i in others if not self.running[i] and not self.checked[i]]
+            if not cands: return
+            i = rnd.choice(cands); ident = self.ids[i]; status = s.context.instances[ident]
+            if status.state == SupvisorsInstanceStates.ISOLATED: return
+            infos = []; sts = {}
+            for p, cfg in enumerate(self.pinfo):
+                if i in cfg['known']:
+                    procx = s.context.get_process(f"{cfg['aname']}:{cfg['name']}")
+                    st = rnd.choice([0, 0, 0, 100, 200, 20, 10])
+                    if st in (10, 20) and (procx.running_identifiers or not procx.stopped()): st = 0
+                    # a start may have been asked in the meantime elsewhere: no conflict in this spike
+                    if st in (10, 20) and any(c.process is procx for j in s.starter.current_jobs.values() for c in j.current_jobs): st = 0
+                    sts[p] = st
+                    infos.append(full_info(cfg['aname'], cfg['name'], st, T[0] / UNIT, cfg['startsecs'], self.dis[(i, p)], cfg['stopwait']))
+            status._state = SupvisorsInstanceStates.CHECKING
+            s.context.load_processes(status, infos)
+            for p, st in sts.items():
+                cfg = self.pinfo[p]
+                info = s.context.get_process(f"{cfg['aname']}:{cfg['name']}").info_map[ident]
+                self.record(f"info {i} {p} {st} 1 {int(info['event_time'] * UNIT)} {int(info['local_mtime'] * UNIT)} {int(self.dis[(i, p)])}")
+            status._state = SupvisorsInstanceStates.CHECKED
+            self.checked[i] = True
+            self.record(f"inst {i} 1")
+        elif r < 0.8:
+            cands = [i for i in others if self.checked[i]]
+            if not cands: return
+            i = rnd.choice(cands)
+            s.context.instances[self.ids[i]]._state = SupvisorsInstanceStates.RUNNING
+            self.checked[i] = False; self.running[i] = True
+            self.record(f"inst {i} 2")
+        else:
+            keys = sorted(self.dis)
+            if not keys: return
+            i, p = rnd.choice(keys); cfg = self.pinfo[p]; ident = self.ids[i]
+            self.dis[(i, p)] = not self.dis[(i, p)]
+            s.context.on_process_disability_event(s.context.instances[ident], {'group': cfg['aname'], 'name': cfg['name'], 'disabled': self.dis[(i, p)]})
+            info = s.context.get_process(f"{cfg['aname']}:{cfg['name']}").info_map[ident]
+            self.lines.append(f"op {T[0]} disable {i} {p} {int(self.dis[(i, p)])}")
+            self.obs.append(self.observe() + f" dis={int(info['disabled'])}")
 
 
 
